@@ -152,10 +152,10 @@ def run_c(ast, state, subs=None, sizeof_type=None):
     return ev.outcome(), ev
 
 
-def run_il(body, state, resolver, env=None):
+def run_il(body, state, resolver, env=None, literal_banks=False):
     """-> (outcome, interp). Raises Discard (ambiguous/unmodelled/inconclusive) or ILError (emitted IL is wrong)."""
     m = Machine(copy.deepcopy(state))
-    it = Interp(m, resolver)
+    it = Interp(m, resolver, literal_banks=literal_banks)
     try:
         it.run_body(body, env)
         out = m.outcome(it.jump_record())
